@@ -1,19 +1,21 @@
 #!/usr/bin/env python3
-"""archive_seed.py <ID> <name> "<caught by / notes>": keep a confirmed seeded change under /verif/seeded/<name>/"""
+"""archive_seed.py <ID>[/<variant>] <name> "<caught by / notes>": keep a confirmed seeded change under /verif/seeded/<name>/"""
 import sys, os, shutil, json, re
-sid, name, notes = sys.argv[1], sys.argv[2], sys.argv[3]
-src = f'/tmp/seed-{sid}/out'; dst = f'/verif/seeded/{name}'
+arg, name, notes = sys.argv[1], sys.argv[2], sys.argv[3]
+sid, _, var = arg.partition('/')
+src = f'/tmp/seed-{sid}/out' + (f'/{var}' if var else ''); dst = f'/verif/seeded/{name}'
+vlog = f'/tmp/seed-{sid}/verify' + (f'-{var}' if var else '') + '.log'
 os.makedirs(dst, exist_ok=True)
 for f in os.listdir(src):
     if os.path.isfile(os.path.join(src, f)): shutil.copy(os.path.join(src, f), os.path.join(dst, f))
 meta = json.load(open(os.path.join(dst, 'meta.json')))
-log = open(f'/tmp/seed-{sid}/verify.log').read() if os.path.exists(f'/tmp/seed-{sid}/verify.log') else ''
+log = open(vlog).read() if os.path.exists(vlog) else ''
 m = re.search(r'stable tests passing with patch: (\d+/\d+)', log)
 ex = re.findall(r'== demo (WITH|WITHOUT) patch\nexit=(\d+)', log)
 meta['confirmed_by_me'] = {
     'stable_tests_with_patch': m.group(1) if m else 'not re-run',
     'demo_exit': {k: int(v) for k, v in ex},
-    'ran': ['tools/verify_seed.sh ' + sid + '  (build with patch; pinned suite vs BASELINE.json stable_pass; demo with and without the patch, in the scratch worktree /tmp/seed-' + sid + '/repo)',
+    'ran': ['tools/verify_seed.sh ' + sid + (' ' + var if var else '') + '  (build with patch; pinned suite vs BASELINE.json stable_pass; demo with and without the patch, in the scratch worktree /tmp/seed-' + sid + '/repo)',
             'tools/try_seed.sh seeded/' + name + '/patch.diff quick <checks>  (git -C /repo apply; ./check ...; git -C /repo checkout -- .)'],
 }
 meta['detection'] = notes
